@@ -49,11 +49,6 @@ pub struct BytecodeInterpreter {
 }
 
 impl BytecodeInterpreter {
-    /// Return a runtime error on the current instruction.
-    pub fn runtime_error(&self, kind: RuntimeErrorKind) -> RuntimeError {
-        self.vm.runtime_error(kind)
-    }
-
     fn compile_expression(&mut self, expr: &Expression) {
         match expr {
             Expression::Scalar { span, value, .. } => {
@@ -524,8 +519,7 @@ impl BytecodeInterpreter {
                         },
                     )
                     .map_err(|e| {
-                        self.vm
-                            .runtime_error(RuntimeErrorKind::UnitRegistryError(e))
+                        RuntimeError::without_backtrace(RuntimeErrorKind::UnitRegistryError(e))
                     })?;
 
                 let constant_idx = self.vm.add_constant(Constant::Unit(Unit::new_base(
